@@ -160,6 +160,13 @@ def r19h(ctx, rep, rule="R19h"):
     f = need(rep, rule, facts, GAC)
     if f is None:
         return
+    # the conversion proper may live in a helper the entry point delegates to (get_as_cell -> get_as_cell_under)
+    if not f.back_edges():
+        for bb, t in f.calls():
+            g = facts.fns.get(callee(t) or "")
+            if g is not None and g.path.startswith(GAC) and g.back_edges():
+                f, GAC = g, g.path
+                break
     if not f.back_edges():
         rep.fail(rule, rule + "|get_as_cell|loop", "Heap::get_as_cell no longer contains a loop over the cdr chain", [f.span])
     else:
@@ -219,6 +226,7 @@ def r19i(ctx, rep, rule="R19i"):
 MATERIALISERS = {
     # function -> why it may turn run-time data into a (natively recursive) datum on a success path
     "marwood::vm::heap::Heap::get_as_cell": "the conversion itself (its own recursion is an R19a entry)",
+    "marwood::vm::heap::Heap::get_as_cell_under": "the conversion itself (its own recursion is an R19a entry)",
     "marwood::vm::builtin::ports::display": "output: the datum is what gets printed",
     "marwood::vm::builtin::ports::write": "output: the datum is what gets printed",
     "marwood::vm::builtin::procedure::error": "the irritants become the error's payload (the procedure never returns Ok)",
@@ -241,7 +249,7 @@ def r19d(ctx, rep, rule="R19d"):
     for p, f in sorted(facts.fns.items()):
         if f.crate != "marwood" or "::tests::" in p:
             continue
-        sites = [(bb, t) for bb, t in f.calls() if (callee(t) or "").endswith("Heap::get_as_cell")]
+        sites = [(bb, t) for bb, t in f.calls() if (callee(t) or "").endswith(("Heap::get_as_cell", "Heap::get_as_cell_under"))]
         if not sites:
             continue
         E = {bb for bb, j, st in f.stmts() if st["rv"]["k"] == "agg" and st["rv"].get("variant") == "Err"}
